@@ -9,5 +9,6 @@ for d in /verif/mc/cmd/*/; do
   /verif/mkoverlay "$id" || rc=2
   ov=/verif/.work/plain/overlay.json; [ -f "$d/INSTR" ] && ov=/verif/.work/instr/overlay.json
   (cd /verif/mc && go build -tags verif -overlay "$ov" -o "/verif/.work/bin/$id" "./cmd/$id") || rc=2
+  if [ -f "$d/RACE" ]; then (cd /verif/mc && go build -race -tags verif -overlay "$ov" -o "/verif/.work/bin/$id-race" "./cmd/$id") || rc=2; fi
 done
 exit $rc
